@@ -6,11 +6,11 @@ from props.inputcommon import finish
 
 def run(tier, seed):
     t0 = time.time()
-    r = inputfam.key_run(3 if tier == "quick" else 4)
+    r = inputfam.key_run(3, wide=(tier == "thorough"))  # (4 segments: 150k targets, the partition judge is quadratic)
     bad = r["collisions"] + r["splits"]
     parts = [dict(name="cache_key_partition", evaluations=r["cases"], distinct=r["hexes"], bad=bad, detail=r["detail"], sample=r["sample"])]
     return finish("C02", tier, t0, parts,
-                  "TLC enumerates request targets (2 methods x 3 host spellings x paths of <=3 (4) segments over {a,b,.,..,'',a|b,a%7Cb,a%3Fb} x trailing slash x 5 queries), "
+                  "TLC enumerates request targets (2 (3) methods x 3 (4) host spellings x paths of <=3 segments over {a,b,.,..,'',a|b,a%7Cb,a%3Fb} x trailing slash x 5 queries), "
                   "renders the wire form and computes the Strict and Loose identities; the Go driver parses each wire request with http.ReadRequest and computes "
                   "cache.MakeFromRequest; TLC judges the partition: no key shared by different Loose identities, one key per Strict identity. "
                   "distinct_nontrivial = distinct keys produced.",
